@@ -30,7 +30,7 @@
 EXTENDS Syntax
 
 CONSTANTS LFoci,      \* which tree families are enumerated (see LUniverse)
-          Bases,      \* base layouts: subset of {"canon", "tight", "wide", "nl", "one"}
+          Bases,      \* base layouts: subset of {"canon", "tight", "wide", "nl", "one", "rows"}
           MaxGap,     \* at most this many PlaceGap deviations
           MaxCm,      \* at most this many inserted comments
           CmKinds,    \* subset of {"//", "/*", "/*o", "#"}
@@ -50,6 +50,14 @@ lvars == <<foc, tree, pr, ps, pc, base, lay, ned, cms, mut, out>>
 (* (Foci / Sizes) and are wrapped into a statement of a script; statements, *)
 (* declarations and class files are built here from templates over a small  *)
 (* expression pool.                                                         *)
+\* literals that are not in the lexicon of Syntax.tla
+RawP == "`p`"                       \* raw-string spelling of the import path p
+EscS == "\"\\x73\""                   \* escaped spelling of the import path s ("\x73")
+K16  == "\"aaaaaaaaaaaaaa\""                                       \* a 16-column key
+K42  == "\"aaaaaaaaaaaaaaaaaaaaaaaaaaaaaaaaaaaaaaaa\""             \* a 42-column key (> 40: exprList's smallSize)
+ExtraLits == {"\"p${x}q\"", "`> a, b\n x`", RawP, EscS, K16, K42}
+\* Syntax!MustSep extended to the extra literals (a word glued to a literal would be one token / a domain text literal)
+LMustSep(p, s) == MustSep(p, s) \/ (p \in Words /\ s \in ExtraLits) \/ (p \in ExtraLits /\ s \in Words)
 Call0 == CallF(<<>>)
 Pool == LET all == <<A, Bin("+", A, Bb), CallF(<<A>>), N("ErrWrapExpr", "!", <<Call0>>)>>
         IN {all[i] : i \in 1..PoolN}
@@ -152,6 +160,28 @@ PairSet == { Script(<<Asg(":=", <<A>>, <<N("ComprehensionExpr", "[", <<A, ForPh(
                       N("GenDecl", "var", <<VSpec(<<Id("z")>>, TId, <<>>)>>)>>),
              ClassFile(<<N("GenDecl", "var(;", <<VSpec(<<A>>, TId, <<>>)>>), FuncD("f", <<>>, Nil, Blk(<<Echo(<<A>>)>>))>>),
              Script(<<N("ForPhraseStmt", "", <<ForPh(N("RangeExpr", "", <<One, Lit("3"), Nil>>), Nil), Body(Id("x"))>>)>>) }
+\* IMPORT GROUPS: the same path under different names (no exact duplicates: ast.SortImports may drop those), and paths
+\* written as raw string / with an escape (the printer canonicalises the spelling, the sorter must use the path itself)
+ISpec(name, path) == N("ImportSpec", "", <<name, Lit(path)>>)
+ImportGroups == { <<ISpec(Nil, "\"p\""), ISpec(Nil, "\"s\""), ISpec(Id("x"), "\"s\"")>>,
+                  <<ISpec(Nil, "\"s\""), ISpec(Id("_"), "\"s\"")>>,
+                  <<ISpec(Id("x"), "\"p\""), ISpec(Nil, "\"p\"")>>,
+                  <<ISpec(Nil, "\"s\""), ISpec(Nil, RawP)>>,
+                  <<ISpec(Nil, EscS), ISpec(Nil, "\"p\"")>>,
+                  <<ISpec(Id("x"), RawP), ISpec(Nil, "\"s\"")>> }
+ImportSet == UNION {{ FileOf(<<N("GenDecl", "import(", g), FuncD("main", <<>>, Nil, Body(A))>>),
+                      N("File", "nopkg", <<Nil, N("GenDecl", "import(", g), N("FuncDecl", "shadow", <<Nil, Nil, Nil, N("BlockStmt", "bare", <<Echo(<<A>>)>>)>>)>>),
+                      ClassFile(<<N("GenDecl", "import(", g), N("GenDecl", "var(;", <<VSpec(<<A>>, TId, <<>>)>>), FuncD("f", <<>>, Nil, Body(A))>>) }
+                    : g \in ImportGroups}
+\* KEY:VALUE LITERALS with one key longer than 40 columns (printer exprList: alignment sections by key-size ratio)
+KV(k, v) == N("KeyValueExpr", "", <<Lit(k), v>>)
+KvLists == { <<KV(K16, One), KV(K42, Lit("2"))>>, <<KV(K42, One), KV(K16, Lit("2"))>>, <<KV(K16, One), KV(K42, Lit("2")), KV("\"s\"", Lit("3"))>> }
+KvSet == UNION {{ Script(<<Asg(":=", <<A>>, <<N("CompositeLit", "", <<TId>> \o l)>>)>>),
+                  Script(<<Asg(":=", <<A>>, <<N("CompositeLit", "", <<Nil>> \o l)>>)>>) } : l \in KvLists}
+\* FUNCTION BODIES WRITTEN ON ONE LINE (printer funcBody / bodySize look ahead over the comments), followed by more code
+OneLineSet == { FileOf(<<FuncD("f", <<>>, Nil, Blk(<<XS(Call0)>>)), N("GenDecl", "var", <<VSpec(<<Id("z")>>, TId, <<>>)>>)>>),
+                Script(<<XS(N("CallExpr", "", <<Id("g"), N("FuncLit", "", <<FT(<<>>, Nil), Blk(<<XS(Call0)>>)>>)>>)), Asg(":=", <<A>>, <<One>>)>>),
+                FileOf(<<FuncD("f", <<>>, Nil, Blk(<<>>)), FuncD("g", <<>>, Nil, Blk(<<XS(CallF(<<A>>))>>))>>) }
 \* a File sample is used as it is; an expression sample becomes `v := e`
 IsFile(t) == t.k = "File"
 WrapAsg(e) == Script(<<Asg(":=", <<Id("v")>>, <<e>>)>>)
@@ -167,9 +197,12 @@ LUniverse(lf) ==
     [] lf = "decl2"   -> {FileOf(<<d, m>>) : d \in DeclSet, m \in DeclNbrs} \cup {FileOf(<<m, d>>) : d \in DeclSet \ {x \in DeclSet : x.k = "GenDecl" /\ x.a \in {"import", "import("}}, m \in DeclNbrs}
     [] lf = "class"   -> ClassSet
     [] lf = "pairs"   -> PairSet
+    [] lf = "imports" -> ImportSet
+    [] lf = "kv"      -> KvSet
+    [] lf = "oneline" -> OneLineSet
     [] lf = "samples" -> {t \in Samples : IsFile(t) /\ Parseable(t)} \cup {WrapAsg(e) : e \in SampleExprs}
     [] OTHER -> {}
-AllLFoci == {"xasg", "xarg", "xcmd", "stmt", "stmt2", "fstmt", "decl", "decl2", "class", "pairs", "samples"}
+AllLFoci == {"xasg", "xarg", "xcmd", "stmt", "stmt2", "fstmt", "decl", "decl2", "class", "pairs", "imports", "kv", "oneline", "samples"}
 
 -----------------------------------------------------------------------------
 (* MUTATIONS of a tree (C19: AST-mutated variants).                         *)
@@ -216,7 +249,6 @@ Muts(t, ks) ==
 (* "omit" (legal before a closing ")" or "}").                              *)
 GapKinds == {"", " ", "\n", "\n\n"}
 \* literals of the sample trees that are not in the lexicon of Syntax.tla
-ExtraLits == {"\"p${x}q\"", "`> a, b\n x`"}
 \* Syntax!SemiAfter as one constant set (TLC evaluates a constant definition once)
 LSemiSet == IdentNames \cup LitNames \cup UnitNames \cup RawNames \cup ExtraLits
               \cup {")", "]", "}", "++", "--", "!", "?", "...", "return", "break", "continue", "fallthrough"}
@@ -226,6 +258,7 @@ ASSUME SemiSetOK
 SepKinds == {"\n", "\n\n", ";", "omit"}
 IsNL(g)  == g \in {"\n", "\n\n"}
 IsSep(rt, i) == i \in 1..Len(rt) /\ rt[i].g = "n"
+LSep(rt, i)  == rt[i].sep \/ (i > 1 /\ LMustSep(rt[i - 1].s, rt[i].s))
 PrevS(rt, i) == IF i > 1 THEN rt[i - 1].s ELSE ""
 \* the scanner turns a newline after these tokens into ";" (scanner.go: insertSemi) -- Syntax!SemiAfter;
 \* a separator written as a newline IS that semicolon, so a newline is wanted exactly there
@@ -243,15 +276,17 @@ Legal(rt, l, i, g, cls) ==
   ELSE /\ g \in GapKinds
        /\ (rt[i].g = "g" /\ ~Relaxed(rt, i)) => g = (IF rt[i].sep THEN " " ELSE "")
        /\ rt[i].g = "w" => g # ""
-       /\ rt[i].sep => g # ""
+       /\ LSep(rt, i) => g # ""
        /\ IsNL(g) => NLLegal(rt, l, i)
 \* base layouts
 BaseGap(rt, i, m, cls) ==
   IF i = 1 THEN ""
   ELSE IF IsSep(rt, i) THEN (IF m \in {"tight", "one"} THEN (IF m = "one" /\ OmitOK(rt, i, cls) THEN "omit" ELSE ";") ELSE "\n")
-  ELSE IF rt[i - 1].s = "{" /\ rt[i - 1].g = "b" /\ rt[i].s # "}" /\ m \in {"canon", "wide", "nl"} THEN "\n"
+  ELSE IF rt[i - 1].s = "{" /\ rt[i - 1].g = "b" /\ rt[i].s # "}" /\ m \in {"canon", "wide", "nl", "rows"} THEN "\n"
+  \* "rows": canonical, but every element of a list on its own line (break after "{" / "[" / "(" and after every ",")
+  ELSE IF m = "rows" /\ rt[i - 1].s \in {",", "{"} /\ rt[i].s \notin {"}", ")"} /\ rt[i].g # "g" THEN "\n"
   ELSE LET g == rt[i].g
-           can == rt[i].sep \/ (CASE g = "w" -> TRUE [] g = "g" -> FALSE [] g = "s" -> FALSE [] g = "b" -> m # "tight" [] OTHER -> m \in {"wide", "nl"})
+           can == LSep(rt, i) \/ (CASE g = "w" -> TRUE [] g = "g" -> FALSE [] g = "s" -> FALSE [] g = "b" -> m # "tight" [] OTHER -> m \in {"wide", "nl"})
        IN IF m = "nl" /\ ~IsSep(rt, i - 1) /\ ~LSemiAfter(rt[i - 1].s) /\ (rt[i].g # "g" \/ Relaxed(rt, i)) THEN "\n" ELSE IF can THEN " " ELSE ""
 \* effective gap: class "s" copies the spacing of the previous gap; after a ";" / omitted separator a blank
 RECURSIVE Eff(_, _, _)
@@ -312,7 +347,7 @@ RECURSIVE ScanItems(_, _, _, _)
 ScanItems(its, j, last, glued) ==
   IF j > Len(its) THEN (IF last # "" /\ LSemiAfter(last) THEN <<";">> ELSE <<>>)
   ELSE LET it == its[j] IN
-       CASE it.k = "t" -> (IF glued /\ last # "" /\ MustSep(last, it.s) THEN <<"<fused>">> ELSE <<>>)
+       CASE it.k = "t" -> (IF glued /\ last # "" /\ LMustSep(last, it.s) THEN <<"<fused>">> ELSE <<>>)
                           \o <<it.s>> \o ScanItems(its, j + 1, IF it.s = ";" THEN "" ELSE it.s, TRUE)
          [] it.k = "w" -> IF IsNL(it.s) /\ last # "" /\ LSemiAfter(last) THEN <<";">> \o ScanItems(its, j + 1, "", FALSE)
                           ELSE ScanItems(its, j + 1, last, FALSE)
